@@ -85,7 +85,8 @@ def main(argv):
         alphabet = ['a', 'b', 'k', 'z', '0', '1', '-1', '*', '**', '', 'x y', '2']
         graph = ['rdict', [['a', ['rlist', [['rdict', [['k', ['i', 1]], ['a', ['ref', 0]]]], ['robj', [['a', ['i', 2]], ['k', ['s', 'xy']]]],
                                          ['tuple', [['i', 3], ['rlist', []]]]]]],
-                           ['k', ['rdict', [['a', ['rdict', [['z', ['none']]]]], ['0', ['s', 'zero']]]]], ['b', ['set', [['i', 1], ['i', 2]]]]]]
+                           ['k', ['rdict', [['a', ['rdict', [['z', ['none']]]]], ['0', ['s', 'zero']]]]], ['b', ['set', [['i', 1], ['i', 2]]]],
+                           ['z', ['edict', [['bad1', ['i', 7]], ['a', ['rdict', [['k', ['i', 8]]]]], ['k', ['i', 9]]]]]]]
 
         def one(data):
             segs = [alphabet[b % len(alphabet)] for b in data[:6]]
